@@ -127,10 +127,14 @@ struct GenMod {
 }
 
 fn gen_bench(p_opts: f64) -> impl Strategy<Value = GenBench> {
+    gen_bench_with(p_opts, 0.3)
+}
+
+fn gen_bench_with(p_opts: f64, p_args: f64) -> impl Strategy<Value = GenBench> {
     (
         (0usize..FN_NAMES.len(), proptest::option::weighted(0.2, 0usize..CUSTOM_NAMES.len()), proptest::option::weighted(0.5, opt_spec(p_opts)), loc()),
         (
-            proptest::option::weighted(0.3, arg_list()),
+            proptest::option::weighted(p_args, arg_list()),
             proptest::option::weighted(0.2, proptest::collection::vec(0u8..TYPE_POOL_LEN as u8, 0..=3).prop_map(|mut v| {
                 dedup(&mut v);
                 v
@@ -227,6 +231,39 @@ pub fn spec_with(p_opts: f64) -> impl Strategy<Value = TwinSpec> {
         out.sort_by_key(|(order, _)| *order);
         let mut spec = TwinSpec { items: out.into_iter().map(|(_, i)| i).collect() };
         // Keep within the static slot pool.
+        while slots_needed(&spec) > SLOTS {
+            spec.items.pop();
+        }
+        spec
+    })
+}
+
+/// A crate in which most benchmarks take runtime arguments.
+pub fn spec_args_heavy() -> impl Strategy<Value = TwinSpec> {
+    (spec_with(0.15), proptest::collection::vec((gen_bench_with(0.15, 0.9), 0usize..4), 1..=4)).prop_map(|(mut spec, extra)| {
+        // Add argument-taking benchmarks into existing module paths.
+        let paths: Vec<Vec<String>> = spec
+            .items
+            .iter()
+            .filter_map(|i| match i {
+                Item::Bench(b) => Some(b.meta.module_path.clone()),
+                _ => None,
+            })
+            .collect();
+        let mut uid = 1000;
+        for (b, pi) in extra {
+            let path = paths[pi % paths.len()].clone();
+            let raw = format!("{}_x{}", FN_NAMES[b.name].trim_start_matches("r#"), uid);
+            uid += 1;
+            spec.items.push(Item::Bench(BenchSpec {
+                meta: Meta { module_path: path, raw_name: raw, custom_name: b.custom.map(|c| CUSTOM_NAMES[c].to_string()), loc: b.loc.clone(), options: b.options.clone() },
+                args: b.args.clone(),
+                types: b.types.clone(),
+                consts: b.consts.clone(),
+                body: b.body,
+                uid,
+            }));
+        }
         while slots_needed(&spec) > SLOTS {
             spec.items.pop();
         }
